@@ -2,11 +2,11 @@
 
 Kernel: Output.plot and _plot_core of the standard line plot, obsfcst, qq,
 sort, hist, freq (harness `diagrams`) and qq with -x/-q, scatter, error, change,
-cond, marginal, reliability, pithist, timeseries (`diagrams2.*`), on a real Data object with symbolic cells.
+cond, marginal, reliability, discrimination, pithist, timeseries (`diagrams2.*`), on a real Data object with symbolic cells.
 Boundary: matplotlib.pyplot is a recording stub -- the claim concerns the x / y
 arrays handed to plot()/bar(), one series per input in command-line order, and
 that every valid case falls in exactly one bin of a binned diagram.
-NOT decided: the other 13 diagrams, maps, rank and impact views, and whether
+NOT decided: the other 12 diagrams, maps, rank and impact views, and whether
 matplotlib draws what it is given."""
 import numpy as np
 
@@ -210,7 +210,7 @@ def run(S, which, T, L, P):
                 S.prove("bin-height=%s" % which, S.same(ys[b], w), twin=S.same(ys[b], w + 1))
 
 
-DIAGRAMS2 = ["pithist", "reliability/below", "reliability/above", "qq+quantiles/location", "qq+quantiles/no", "scatter/no", "scatter/location", "error/location", "change", "cond", "marginal/above", "marginal/below", "timeseries"]
+DIAGRAMS2 = ["discrimination", "pithist", "reliability/below", "reliability/above", "qq+quantiles/location", "qq+quantiles/no", "scatter/no", "scatter/location", "error/location", "change", "cond", "marginal/above", "marginal/below", "timeseries"]
 
 
 def h_diagrams2(which, big):
@@ -231,7 +231,7 @@ def run2(S, which, big):
     MI = common.input_class()
     T, L, P = {"scatter/no": (2, 1, 2), "scatter/location": (2, 1, 2), "error/location": (2, 1, 2), "change": (3, 1, 1),
                "cond": (2, 1, 1), "qq+quantiles/location": (2, 1, 2), "qq+quantiles/no": (2, 1, 1),
-               "pithist": (3, 1, 1), "reliability/below": (3, 1, 1), "reliability/above": (3, 1, 1), "marginal/above": (2, 1, 2), "marginal/below": (2, 1, 2), "timeseries": (2, 2, 2)}[which]
+               "discrimination": (3, 1, 1), "pithist": (3, 1, 1), "reliability/below": (3, 1, 1), "reliability/above": (3, 1, 1), "marginal/above": (2, 1, 2), "marginal/below": (2, 1, 2), "timeseries": (2, 2, 2)}[which]
     if big and which in ("scatter/no", "scatter/location"):
         L = 2
     if big and which == "cond":
@@ -268,7 +268,7 @@ def run2(S, which, big):
                 pit[cells[-1]] = S.real("B.pit?", nan=True, lo=0, hi=1)
             kw = {"pit": pit}
             rawp.append(pit)
-        if which.startswith("reliability"):
+        if which.startswith("reliability") or which == "discrimination":
             pr = S.array(nm + ".p", shape + (1,), nan=False, lo=0, hi=1)
             kw = {"thresholds": S.const([1.0]), "threshold_scores": pr}
             rawp.append(pr)
@@ -316,13 +316,18 @@ def run2(S, which, big):
     elif which == "cond":
         pl = out.Cond()
         pl.thresholds = S.vector(t)
+    elif which == "discrimination":
+        pl = out.Discrimination()
+        pl.thresholds = S.const([1.0])
+        pl.quantiles = S.const([0.0, 0.5, 1.0])
+        pl.bin_type = "below"
     elif which == "pithist":
         pl = out.PitHist()
         pl.thresholds = S.const([0.0, 0.5, 1.0])      # bin edges (-r)
     elif which.startswith("reliability"):
         pl = out.Reliability()
         pl.thresholds = S.const([1.0])
-        pl.quantiles = [0.0, 0.5, 1.0]          # bin edges of the forecast probability (-q)
+        pl.quantiles = S.const([0.0, 0.5, 1.0])          # bin edges of the forecast probability (-q), an array as the driver passes it
         pl.bin_type = which.split("/")[1]
     elif which.startswith("marginal"):
         pl = out.Marginal()
@@ -350,6 +355,28 @@ def run2(S, which, big):
         got = S.elements(got)
         return len(got) == len(want) and bool(S.all(S.same(a, b) for a, b in zip(got, want)))
 
+    if which == "discrimination":
+        # per input two bar series: the distribution of the forecast probability over the bins among the cases
+        # where the event (obs < 1) was observed / not observed; each distribution sums to 100 %
+        bars = calls.find("mpl", "bar")
+        sel = [q for q in cells if valid(q, need_fcst=False, extra=0)]
+        for k, nm in enumerate(names):
+            for tag, want_event in (("not observed", False), ("observed", True)):
+                b = [c for c in bars if c[3].get("label") == "%s %s" % (nm, tag)]
+                S.prove("two-bar-series-per-input", len(b) == 1, detail="%s %s" % (nm, tag))
+                if len(b) != 1:
+                    continue
+                ys = S.elements(b[0][2][1])
+                group = [q for q in sel if bool(raw[k][0][q] < 1.0) == want_event]
+                if not group:
+                    S.prove("no-case-gives-nan", bool(S.all(S.isnan(y) for y in ys)), detail=tag)
+                    continue
+                low = S.count(rawp[k][q + (0,)] < 0.5 for q in group)
+                S.prove("bar=percentage-of-the-group's-forecasts-in-the-bin",
+                        S.and_(S.close(ys[0], S.div(low * 100.0, len(group))), S.close(ys[1], S.div((len(group) - low) * 100.0, len(group)))),
+                        twin=S.close(ys[0], S.div(low * 100.0, len(group)) + 1), detail=tag)
+                S.prove("each-case-in-exactly-one-bin", S.close(ys[0] + ys[1], 100.0), detail=tag)
+        return
     if which == "pithist":
         # one panel per input, in order; bar heights = percentage of the PIT values in [0, .5) and [.5, 1]
         bars = calls.find("mpl", "bar")
